@@ -11,8 +11,9 @@
 (* <<first token start, longest end>> or <<-1,-1>>.                        *)
 (*                                                                         *)
 (* L0: the k-th match is Attempt(qm) for the LEFTMOST position qm >= end   *)
-(*     of the previous match at which a non-ignored terminal matches and   *)
-(*     the attempt succeeds (leftmost start, longest completion).          *)
+(*     of the previous match at which a non-ignored terminal of the start  *)
+(*     state's lexer matches and the attempt succeeds (leftmost start,     *)
+(*     longest completion).                                                *)
 (* L1: the code's loop: pos, search_start, on failure pos = start + 1, on  *)
 (*     success pos = end of the match.                                     *)
 (***************************************************************************)
@@ -44,13 +45,19 @@ Attempt(T, M, SM, order, rules, start, las, contextual, n, q) ==
   LET r == AttemptFrom(T, M, SM, order, rules, start, las, contextual, n, q, <<State0(rules, start)>>, -1, -1)
   IN IF r[2] < 0 THEN <<-1, -1>> ELSE r
 
-\* search_start: a non-ignored terminal matches at q (each terminal's own regex; search is over the window)
-Searchable(T, M, q) == \E i \in DOMAIN T : ~T[i].ign /\ M[i][q + 1] > q
+\* search_start: a non-ignored terminal of the lexer used in the START state matches at q (each terminal's own regex;
+\* the search is over the window).  Basic lexer: every non-ignored terminal.  Contextual lexer: the non-ignored terminals
+\* the start state accepts (lexers[start_state].search_scanner) - so a start hiding inside what another tokenisation
+\* would ignore is still found, and a position where only a terminal of some later state matches is not a candidate.
+SearchSet(T, rules, start, las, contextual) ==
+  {i \in Among(T, rules, start, las, <<State0(rules, start)>>, contextual) : ~T[i].ign}
+Searchable(T, M, S, q) == \E i \in S : M[i][q + 1] > q
 
 \* ---- L0 ----------------------------------------------------------------------------------------
 RECURSIVE Matches0(_, _, _, _, _, _, _, _, _, _, _)
 Matches0(T, M, SM, order, rules, start, las, contextual, n, from, acc) ==
-  LET good == {q \in from..(n - 1) : Searchable(T, M, q) /\ Attempt(T, M, SM, order, rules, start, las, contextual, n, q)[2] >= 0}
+  LET S == SearchSet(T, rules, start, las, contextual)
+      good == {q \in from..(n - 1) : Searchable(T, M, S, q) /\ Attempt(T, M, SM, order, rules, start, las, contextual, n, q)[2] >= 0}
   IN IF good = {} THEN acc
      ELSE LET qs == CHOOSE q \in good : \A r \in good : q <= r
               m == Attempt(T, M, SM, order, rules, start, las, contextual, n, qs)
@@ -59,7 +66,7 @@ Matches0(T, M, SM, order, rules, start, las, contextual, n, from, acc) ==
 \* ---- L1 ----------------------------------------------------------------------------------------
 RECURSIVE Matches1(_, _, _, _, _, _, _, _, _, _, _)
 Matches1(T, M, SM, order, rules, start, las, contextual, n, pos, acc) ==
-  LET cand == {q \in pos..(n - 1) : Searchable(T, M, q)} IN
+  LET cand == {q \in pos..(n - 1) : Searchable(T, M, SearchSet(T, rules, start, las, contextual), q)} IN
   IF cand = {} THEN acc
   ELSE LET ms == CHOOSE q \in cand : \A r \in cand : q <= r                     \* search_start
            m == Attempt(T, M, SM, order, rules, start, las, contextual, n, ms)
